@@ -681,6 +681,43 @@ def race_run(work, v, family, n, seed, what, procs=(1, 2, 4, 16)):
     v.notes.append("%d calls executed under the Go race detector (GOMAXPROCS %s)" % (total, ",".join(map(str, procs))))
 
 
+def sched_replay(work, v, gen_module, family, trace_module, consts, num, seed, what):
+    """TLC simulates the protocol specification and prints each behaviour as a schedule; the driver replays the schedules
+    on the real goroutines through the gating hooks; a schedule the code cannot follow (a goroutine that does not arrive
+    where the model says, or arrives elsewhere) or a different return value is a divergence of the code from the protocol.
+    The arrival logs of the followed schedules are validated again by the trace specification."""
+    cfg = write_cfg(work, gen_module + ".cfg", spec="SSpec", invariants=["Emit"], constants=consts)
+    cases, n, r = vf.tlc_gen(work, gen_module, cfg, workers=1, simulate=num, depth=400, seed=seed)
+    n = dedup_lines(cases)
+    if n == 0:
+        raise vf.ToolingError("%s generated no schedule" % gen_module)
+    v.add_mc(r, "gen:" + gen_module)
+    trace = vf.drive(work, family, cases=cases, timeout=3000)
+    evs = vf.read_events(trace)
+    runs = work.fresh("schedruns", ".ndjson")
+    nsteps = 0
+    with open(runs, "w") as f:
+        for e in evs:
+            if e["t"] == "conc":
+                f.write(json.dumps(e) + "\n")
+                continue
+            v.count_case(vf.digest([e["cfg"], e["steps"], e["id"]]))
+            v.sample({"schedule": e["id"], "configuration": e["cfg"], "steps": e["steps"], "followed": e["done"], "returned": e["ret"]})
+            nsteps += e["done"]
+            failing = []
+            if e["status"] != "followed":
+                failing.append("followsSchedule")
+            elif e["ret"] != e["want"]:
+                failing.append("returns" if e["ret"] == "hang" else "sameReturn")
+            if failing:
+                v.finding({"op": what, "failing": failing, "kind": e["status"], "cfg": e["cfg"], "at_step": e["done"], "action": e.get("at"),
+                           "detail": e["detail"], "returned": e["ret"], "model_returns": e["want"]},
+                          {"family": "sched", "note": "re-run the pipeline of this property with the recorded tier and seed"})
+    v.notes.append("%s: %d schedules generated by TLC replayed on the real goroutines (%d gated steps followed)" % (what, n, nsteps))
+    if os.path.getsize(runs) > 0:
+        conc_validate(work, v, trace_module, runs, what + " (arrival logs)", consts)
+
+
 def _c08(work, v, tier, seed):
     vf.build_driver(work)
     q = tier == "quick"
@@ -705,7 +742,9 @@ def _c08(work, v, tier, seed):
     # 4. hook logs of free-running executions are behaviours of the protocol
     trace = vf.drive(work, "disttrace", n=40 if q else 400, seed=seed, tier=tier)
     conc_validate(work, v, "Trace_Conc", trace, "DistMatrix protocol", {"DoneOnError": "TRUE"})
-    # 5. race detector
+    # 5. model -> code: schedules generated by TLC from the protocol are replayed on the real goroutines (every hook a gate)
+    sched_replay(work, v, "Gen_DistSched", "distsched", "Trace_Conc", {"DoneOnError": "TRUE"}, 60 if q else 1500, seed, "DistMatrix schedule")
+    # 6. race detector
     race_run(work, v, "distconc", 40 if q else 400, seed, "DistMatrix", procs=(1, 4, 16) if q else (1, 2, 4, 8, 16))
     v.assumptions += ["TLC and the CommunityModules evaluate TLA+ correctly", "the Go race detector reports every unordered conflicting access that occurs"]
 
